@@ -345,7 +345,8 @@ func ledgerSeq(res *vlib.Result, seqSeed uint64, maxExp int, keys map[string]str
 			}
 		}
 	}
-	_ = keep
+	runtime.KeepAlive(keep) // the addresses recorded in the ledgers stay meaningful until here
+	runtime.KeepAlive(hs)
 	return ops
 }
 
@@ -518,6 +519,33 @@ func main() {
 	if mode == "" || mode == "all" || mode == "ring" {
 		res.Eval(rings(res, res.Seed, ringOps))
 		keys["ringpool"] = struct{}{}
+	}
+	if mode == "" || mode == "all" || mode == "hugeodd" {
+		// odd capacities above 1 GiB: the memory is only reserved, never touched
+		for _, cp := range []int{1<<30 + 4096, 1<<30 + 1<<29 + 7, 1<<31 - 4096} {
+			pool := new(byteslice.Pool)
+			donor := make([]byte, cp)
+			dlo, dhi := rng(donor)
+			pool.Put(donor)
+			for _, n := range []int{1<<30 + 1, cp - 100, 1 << 30, 1<<29 + 1} {
+				b := pool.Get(n)
+				if len(b) != n || cap(b) < n {
+					res.Violate("C12 byteslice.Get length size="+sizeClassName(n), fmt.Sprintf("Get(%d) returned len=%d cap=%d", n, len(b), cap(b)), nil)
+				}
+				lo, hi := rng(b)
+				if lo >= dlo && lo < dhi && hi > dhi {
+					res.Violate("C12 byteslice.Get exceeds the donated slice's capacity", fmt.Sprintf("after Put of a slice with capacity %d, Get(%d) returned cap %d starting inside the donated array: %d bytes beyond the donor's capacity", cp, n, cap(b), hi-dhi), map[string]any{"donor_cap": cp, "get": n})
+				}
+				res.Eval(1)
+				if lo >= dlo && lo < dhi {
+					break // the donor is handed out (and held) now
+				}
+			}
+			keys[fmt.Sprintf("hugeodd|cap=2^30+%d", cp-1<<30)] = struct{}{}
+			runtime.KeepAlive(donor) // the donated address range must stay allocated while it is compared
+			donor = nil
+			runtime.GC()
+		}
 	}
 	if mode == "huge" { // thorough only: a handful of sizes up to 2^31-1, sequentially
 		pool := new(byteslice.Pool)
